@@ -86,4 +86,7 @@ claim("C10", "DESIGN.md §2 C10",
       COMMON_NOTE)
 
 PENDING = "check for this property is still being built in this session; see DESIGN.md for the planned structural rules"
-na("C11", "progress, reclaimed byte counts, 'bounded number of cycles' and fixed points are quantities of executions; no refactoring-stable structural necessary condition exists beyond safety rules already claimed under C04/C07 (DESIGN.md §2 C11)")
+claim("C11", "DESIGN.md §2 C11 and §9.15",
+      "Decides only the SHAPE the collectors' progress rests on, each rule a necessary condition (if it is violated, some history ending in files without live data is never reclaimed however many cycles run): both GC supervisors re-arm their timer after every finished cycle, every cycle calls the collector and signals completion on every exit; files in which the freelist pass marked records leave the visited set before the file loop, a file is marked visited only after a successful reap, and deleteRecords enters every file it marked in into the affected set; the three file loops (primary gc, index gc, truncateFreeFiles) start at the header's first file (or the recorded resume point), advance by one file, and pass over a file only for a stated reason (visited / still referenced / unreadable / already empty); an empty oldest file is unlinked in the same pass; a zero-length file and a file cut at offset 0 are reported empty; a completed scan that found a trailing free span truncates; an index record no bucket refers to is marked in the same pass; relocation of a low-use file's last live records is skipped only for the stated reasons and the low-use test has the form 100*free >= percent*(...); an index pass stopped by the time limit records its resume point and the next pass starts there. NOT decided: the number of cycles, reclaimed byte counts, the fixed point, 'GC never increases storage', or that these shapes together suffice for progress — those are quantities of executions.",
+      "must-reach / skip-only-for-stated-reason path rules on the SSA CFG (reachability avoiding the work instruction and the bypass polarity of the stated-reason tests), loop-variable start/step forms, select-case analysis of the supervisors",
+      COMMON_NOTE)
